@@ -767,7 +767,23 @@ pub fn purity_event(v: &Value) -> String {
     let calls: Vec<Value> = v["calls"].as_array().cloned().unwrap_or_default();
     let threads = vusize(&v["threads"]).max(1);
     if threads == 1 {
-        let res: Vec<String> = calls.iter().map(pure_call).collect();
+        // "rep": n runs the call n times back to back; logged once when every result is the same,
+        // otherwise the first result and the first differing one
+        let mut res: Vec<String> = vec![];
+        for c in calls.iter() {
+            let first = pure_call(c);
+            let mut differing = None;
+            for _ in 1..vusize(&c["rep"]).max(1) {
+                let again = pure_call(c);
+                if again != first && differing.is_none() {
+                    differing = Some(again);
+                }
+            }
+            res.push(first);
+            if let Some(d) = differing {
+                res.push(d);
+            }
+        }
         return format!("{{\"k\":\"purity\",\"threads\":1,\"calls\":[{}],\"per_thread\":[]}}", res.join(","));
     }
     let reps = vusize(&v["reps"]).max(1);
